@@ -1,6 +1,9 @@
 mod bddops;
+#[cfg(feature = "frontend")]
+mod frontend;
 mod gen;
 mod hist;
+mod iter;
 mod ng;
 mod sem;
 mod util;
@@ -15,6 +18,9 @@ fn main() {
         "sem" => sem::main(&args[2..]),
         "bdd" => bddops::main(&args[2..]),
         "hist" => hist::main(&args[2..]),
+        #[cfg(feature = "frontend")]
+        "frontend" => frontend::main(&args[2..]),
+        "iter" => iter::main(&args[2..]),
         "ng" => ng::main(&args[2..]),
         other => {
             eprintln!("unknown subcommand {}", other);
